@@ -1391,3 +1391,117 @@ class InitAsync""", 'R08.8')
 V('C08', 'mode-tests-same', S2, "        if self._stop_data is not None and self._ctrl_coro == self._ctrl_start:\n            await self._output_coro_wrapper(self._stop_data)", "        if self._stop_data is not None:\n            await self._output_coro_wrapper(self._stop_data)", 'R08.8')
 E('C08', 'ensure-future', SIM, "        init_done = asyncio.create_task(self._init_done.wait())", "        init_done = asyncio.ensure_future(self._init_done.wait())")
 E('C08', 'rename-tasks', SIM, "            self.log_debug(\"Waiting for async cleanup\")\n            await self._run_tasks(\"stop\", wait_tasks)", "            self.log_debug(\"Waiting for async cleanup\")\n            stop_jobs = wait_tasks\n            await self._run_tasks(\"stop\", wait_tasks)")
+
+# ----------------------------------------------------------------------------- C12
+V('C12', 'cancel-arm-returns', S2, """            self.log_debug("output task cancelled")
+            for ev in self._on_cancel:
+                ev.send(self, trigger='cancel', put=data)
+""", """            self.log_debug("output task cancelled")
+            for ev in self._on_cancel:
+                ev.send(self, trigger='cancel', put=data)
+            return
+""", 'R12')
+V('C12', 'guard-unshielded', S2, "                await utils.shield_cancel(asyncio.sleep(self._guard_time))", "                await asyncio.sleep(self._guard_time)", 'R12.4')
+V('C12', 'put-copy', S2, """            for ev in self._on_success:
+                ev.send(self, trigger='success', value=retval, put=data)""", """            for ev in self._on_success:
+                ev.send(self, trigger='success', value=retval, put=dict(data, value=retval))""", 'R12.1')
+V('C12', 'success-in-finally', S2, """        else:
+            self.log_debug("output task returned value %r", retval)
+            for ev in self._on_success:
+                ev.send(self, trigger='success', value=retval, put=data)
+        if self._guard_time > 0.0:""", """        finally:
+            for ev in self._on_success:
+                ev.send(self, trigger='success', value=None, put=data)
+        if self._guard_time > 0.0:""", 'R12.1')
+V('C12', 'discard-silently', S2, """                self.log_debug("Discarding: %r", data)
+                for ev in self._on_cancel:
+                    ev.send(self, trigger='cancel', put=data)
+                data = new_data""", """                self.log_debug("Discarding: %r", data)
+                data = new_data""", 'R12.2')
+V('C12', 'lifo-queue', S2, "        self._queue = asyncio.Queue()\n        self._ctrl_task = self._create_monitored_task(", "        self._queue = asyncio.LifoQueue()\n        self._ctrl_task = self._create_monitored_task(", 'R12.5')
+V('C12', 'decrement-outside-finally', S2, """        try:
+            await self._output_coro(data)
+        finally:
+            self.set_output(self.output - 1)
+""", """        await self._output_coro(data)
+        self.set_output(self.output - 1)
+""", 'R12.3')
+V('C12', 'cancel-at-stop', S2, """                if not stop:
+                    task.cancel()
+""", """                task.cancel()
+""", 'R12.5')
+V('C12', 'create-before-await', S2, """            if task and not task.done():
+                if not stop:
+                    task.cancel()
+                # do not use try/await task/except here, because the _output_coro
+                # catches all exceptions from user-supplied 'coro'
+                await task
+""", """            if task and not task.done():
+                if not stop:
+                    task.cancel()
+""", 'R12')
+V('C12', 'wait-mode-concurrent', S2, "            await self._output_coro_wrapper(data)\n\n    async def _ctrl_start", "            asyncio.create_task(self._output_coro_wrapper(data))\n\n    async def _ctrl_start", 'R12')
+V('C12', 'mode-swapped', S2, """        if mode in {"c", "cancel"}:
+            self._ctrl_coro = self._ctrl_cancel
+        elif mode in {"w", "wait"}:
+            self._ctrl_coro = self._ctrl_wait""", """        if mode in {"c", "cancel"}:
+            self._ctrl_coro = self._ctrl_wait
+        elif mode in {"w", "wait"}:
+            self._ctrl_coro = self._ctrl_cancel""", 'R12.6')
+V('C12', 'wrong-trigger', S2, "                ev.send(self, trigger='error', error=err, put=data)", "                ev.send(self, trigger='cancel', error=err, put=data)", 'R12.1')
+V('C12', 'error-to-cancel-tuple', S2, "            for ev in self._on_error:\n                ev.send(self, trigger='error', error=err, put=data)", "            for ev in self._on_cancel:\n                ev.send(self, trigger='error', error=err, put=data)", 'R12.1')
+V('C12', 'shield-exits-early', SC, """            if task.done():
+                # cancelled from within aw
+                raise
+            cancel_exc = err""", """            if task.done():
+                # cancelled from within aw
+                raise
+            cancel_exc = err
+            break""", 'R12.4')
+V('C12', 'put-drops-data', S2, "    def _event_put(self, **data) -> None:\n        self._queue.put_nowait(data)", "    def _event_put(self, **data) -> None:\n        self._queue.put_nowait({'value': data.get('value')})", 'R12.2')
+V('C12', 'sentinel-data-lost', S2, """                if new_data is None:
+                    stop = True
+                    break
+                self.log_debug("Discarding: %r", data)""", """                if new_data is None:
+                    stop = True
+                    data = None
+                    break
+                self.log_debug("Discarding: %r", data)""", None, note='data overwritten before being run')
+E('C12', 'arms-reordered', S2, "        if self._guard_time > 0.0:\n            try:\n                await utils.shield_cancel", "        if 0.0 < self._guard_time:\n            try:\n                await utils.shield_cancel")
+E('C12', 'counter-local', S2, "        self.set_output(self.output + 1)\n        try:\n            await self._output_coro(data)", "        self.set_output(self._output + 1)\n        try:\n            await self._output_coro(data)")
+
+# ----------------------------------------------------------------------------- C18
+V('C18', 'output-lags', S1, "                self.set_output(repeat)\n                self._repeated_event.send(self, **data, repeat=repeat)", "                self._repeated_event.send(self, **data, repeat=repeat)\n                self.set_output(repeat)", 'R18.1')
+V('C18', 'output-other-number', S1, "                self.set_output(repeat)\n                self._repeated_event.send(self, **data, repeat=repeat)", "                self.set_output(repeat - 1)\n                self._repeated_event.send(self, **data, repeat=repeat)", 'R18.1')
+V('C18', 'orig-source-after', S1, """        data['orig_source'] = data.get('source')
+        self.set_output(0)
+        self._repeated_event.send(self, **data, repeat=0)
+        self._queue.put_nowait(data)""", """        self.set_output(0)
+        self._repeated_event.send(self, **data, repeat=0)
+        data['orig_source'] = data.get('source')
+        self._queue.put_nowait(data)""", 'R18.2')
+V('C18', 'no-restart-numbering', S1, """                    data = await asyncio.wait_for(self._queue.get(), self._interval)
+                    repeat = 0
+""", """                    data = await asyncio.wait_for(self._queue.get(), self._interval)
+""", 'R18.2')
+V('C18', 'count-le', S1, "            repeating = self._count is None or repeat < self._count", "            repeating = self._count is None or repeat <= self._count", 'R18.6')
+V('C18', 'count-none-stops', S1, "            repeating = self._count is None or repeat < self._count", "            repeating = self._count is not None and repeat < self._count", 'R18.6')
+V('C18', 'foreign-type-forwarded', S1, """                self._warning_logged = True
+            return
+""", """                self._warning_logged = True
+            self._repeated_event.send(self, **data, repeat=0)
+            return
+""", 'R18')
+V('C18', 'implicit-count-dropped', BLK, "                dest=dest, etype=etype, interval=repeat, count=count)", "                dest=dest, etype=etype, interval=repeat)", 'R18.4')
+V('C18', 'implicit-interval-count-swapped', BLK, "                dest=dest, etype=etype, interval=repeat, count=count)", "                dest=dest, etype=etype, interval=count, count=repeat)", 'R18.4')
+V('C18', 'negative-count-ok', S1, """        if count is not None and count < 0:
+            # count = 0 (no repeating) is accepted
+            raise ValueError("argument 'count' must not be negative")
+""", "", 'R18.4')
+V('C18', 'zero-count-refused', S1, "        if count is not None and count < 0:\n", "        if count is not None and count <= 0:\n", 'R18.4')
+V('C18', 'not-enqueued', S1, "        self._repeated_event.send(self, **data, repeat=0)\n        self._queue.put_nowait(data)\n", "        self._repeated_event.send(self, **data, repeat=0)\n        if self._count != 0:\n            self._queue.put_nowait(dict(data))\n", 'R18.2')
+V('C18', 'resend-number-zero', S1, "            if repeat > 0:  # skip the original event\n", "            if repeat >= 0:  # skip the original event\n", 'R18.2')
+V('C18', 'increment-two', S1, "                    repeat += 1\n", "                    repeat += 2\n", 'R18.2')
+V('C18', 'data-not-forwarded', S1, "                self._repeated_event.send(self, **data, repeat=repeat)", "                self._repeated_event.send(self, repeat=repeat)", 'R18.2')
+E('C18', 'count-flipped', S1, "            repeating = self._count is None or repeat < self._count", "            repeating = self._count is None or self._count > repeat")
+E('C18', 'source-subscript', S1, "        data['orig_source'] = data.get('source')\n", "        data['orig_source'] = data.get('source')\n        self.log_debug('repeating %s', etype)\n")
